@@ -644,7 +644,52 @@ def helpers(ctx, viol_h):
         ctx.count("short_roundtrips", len(shorts))
     ctx.count("helper_samples", nsamp)
     ctx.cov["helper_model_compared"] = model is not None
+    if not ctx.quick:
+        nsamp += helpers_thorough(ctx, exe, viol_h)
     return nsamp
+
+
+def helpers_thorough(ctx, exe, viol_h):
+    """(a) 2^23 float32 patterns per float->integer helper, stratified over the whole pattern space, through model and
+    implementation (hash per 8192-sample call); (b) all 2^32 patterns through the real helpers on the C side against an
+    SSE-computed oracle (nearest even + clamp) with a monotonicity check."""
+    rng = ctx.rng
+    per, total = 8192, 1 << 23
+    lines, meta = [], []
+    for kern in ("lsr-f2s", "lsr-f2i"):
+        stride = ((1 << 32) // total) | 1
+        off = rng.next() & 0xffffffff
+        for k in range(total // per):
+            first = (off + k * per * stride) & 0xffffffff
+            lines.append("convr %s %d 1 0 0 %x %x" % (kern, per, first, stride))
+            meta.append((kern, first, stride))
+    a = G.run_lines(exe, lines, jobs=common.NCPU)
+    b = G.run_lines(G.MODEL, lines, jobs=common.NCPU) if G.model_available() else a
+    for i in [i for i in range(len(lines)) if a[i] != b[i]][:2]:
+        kern, first, stride = meta[i]
+        c = G.Case(kern, per, 1, 0, 0, [(first + k * stride) & 0xffffffff for k in range(per)], "f32", "range")
+        viol_h.append((c, "stratified range: implementation and model differ", None))
+    parts = 64
+    sw = ["sweep %s %x %d 0" % (kern, k * ((1 << 32) // parts), (1 << 32) // parts) for kern in ("lsr-f2s", "lsr-f2i") for k in range(parts)]
+    res = G.run_lines(exe, sw, jobs=min(len(sw), common.NCPU * 2))
+    tot = {"bad": 0, "nonmono": 0, "count": 0}
+    for l, r in zip(sw, res):
+        if not r.startswith("SWEEP"):
+            rc, out, err = G._run([exe], l + "\n")
+            detail = [o for o in out if not o.startswith("SWEEP")][:3]
+            pat = 0
+            for o in detail:
+                for tok in o.split():
+                    if tok.startswith(("pattern=", "first=")):
+                        pat = int(tok.split("=")[1], 16)
+            viol_h.append((G.Case(l.split()[1], 1, 1, 0, 0, [pat], "f32", "sweep"), "exhaustive float32 sweep: " + " | ".join(detail)[:500], 0))
+            r = out[-1] if out else ""
+        kv = dict(x.split("=") for x in r.split()[2:] if "=" in x)
+        for k in tot:
+            tot[k] += int(kv.get(k, 0))
+    ctx.cov["helpers_exhaustive_float32_sweep"] = tot
+    ctx.count("helper_range_samples", 2 * total)
+    return 2 * total + tot["count"]
 
 
 # ------------------------------------------------------------------ the check
